@@ -234,7 +234,7 @@ PROPS['C18'] = dict(layers=[lexlayer.LexLayer(), config.ConfigLayer(prop='C18'),
 PROPS['C19'] = dict(layers=[redfish.RedfishLayer()], planned=['`Safe` (no undefined or cyclic parent, every plug with a status path) preserved by setplugs with a defined acyclic parent and by setpath', 'the `outside` branches of the command layer (known findings F40-F42) are not described further'])
 PROPS['C20'] = dict(layers=[D(P.p_c20, profile=dict(pF6=0.02, maxclients=6), leaks=True, deaths=shutdown_deaths)], planned=['C20_refcount', 'C20_objects', 'C20_shutdown (signal path / teardown not modelled yet)'])
 PROPS['C15'] = dict(layers=[D(P.p_c15, P.p_c04, P.p_c04_quit, profile=dict(garbage=0.06, maxclients=6, burst=0.01))], planned=['client output beyond the 1 MiB buffer: the model never drops client output (the property carries that proviso; cbuf_write overwrites the oldest unsent bytes in C)', 'configuration strings with CR/LF escapes are outside `Good` (as coded: observation)'])
-PROPS['C16'] = dict(layers=[libpm.LibPmLayer()], planned=['memory safety of the remaining C is observed under ASan, not proved'])
+PROPS['C16'] = dict(layers=[libpm.LibPmLayer(), libpm.GreetingLayer()], planned=['memory safety of the remaining C is observed under ASan, not proved'])
 PROPS['C17'] = dict(layers=[speclayer.SpecLayer(), D(P.p_c08, P.p_c17_sends, profile=dict(faults=0.5)), gramlayer.GrammarLayer(prop='C17', quick=((2, 100), (3, 120), (1, 3), (1, 0), (1, 200)), thorough=((8, 300), (12, 300), (4, 10), (1, 0), (4, 0)))], planned=['the flat reference program has no contexts: soundness is stated over the ExecCtx machine (Reach) and tied to it by C08_pass_is_run'])
 PROPS['C11'] = dict(refines=[(r'^(C \d+ |A \d+ |Y write 1\d\d\d )', "a client's record, result cells or output are not what its own request and its own actions determine (C11_routing, C11_result_scope)")], layers=[D(P.p_c11, P.p_c11_events, P.p_c11_tele, P.p_f23, profile=dict(maxclients=6, burst=0.005))], planned=['C11_backpressure with the EAGAIN variant while the stuck client keeps sending', 'id wrap (F17) is outside the unbounded-Nat model'])
 
